@@ -72,7 +72,7 @@ def ob_demod(mod, layout):
         o = _mk(it, mod)
         symbols = it.getattr(o, "symbols")
         if layout == "1d":
-            shape = (2,) if len(symbols) <= 8 else (1,)
+            shape = (2,) if len(symbols) <= 4 else (1,)
         else:
             shape = (1, 2)
         base = np.empty(shape, dtype=object)
